@@ -759,6 +759,46 @@ pub fn fixed_pkt(rng: &mut Rng, version: u16, n: usize) -> FixedPkt {
                 r[*off..*off + *w].copy_from_slice(&b);
             }
         }
+        if rng.chance(1, 4) {
+            // a record that looks like traffic: real protocol numbers, well-known or zero ports,
+            // plausible flag sets, special addresses, zero "router" fields - the combinations a
+            // compatibility shim or a normalisation would key on
+            let mut set = |name: &str, v: u32| {
+                if let Some((_, off, w)) = layout.iter().find(|f| f.0 == name) {
+                    let b = v.to_be_bytes();
+                    r[*off..*off + *w].copy_from_slice(&b[4 - *w..]);
+                }
+            };
+            let proto = *rng.pick(&[1u32, 6, 17, 47, 50, 58, 132, 2, 89]);
+            set("protocol_number", proto);
+            let port = |rng: &mut Rng| *rng.pick(&[0u32, 0, 22, 53, 80, 123, 443, 2048, 771, 1024, 8080, 65535]);
+            set("src_port", port(rng));
+            set("dst_port", port(rng));
+            set("tcp_flags", if proto == 6 { *rng.pick(&[0x02u32, 0x12, 0x10, 0x18, 0x11, 0x04, 0x1b]) } else { 0 });
+            set("tos", *rng.pick(&[0u32, 0, 0xb8, 0x28]));
+            let addr = |rng: &mut Rng| *rng.pick(&[0u32, 0x7f000001, 0x0a000001, 0xc0a80101, 0xc0000201, 0xe0000001, 0xffffffff, 0xa9fe0001]);
+            set("src_addr", addr(rng));
+            set("dst_addr", addr(rng));
+            if rng.chance(1, 2) {
+                for f in ["next_hop", "input", "output", "src_as", "dst_as", "src_mask", "dst_mask"] {
+                    set(f, 0);
+                }
+            } else {
+                set("src_mask", *rng.pick(&[0u32, 8, 16, 24, 32]));
+                set("dst_mask", *rng.pick(&[0u32, 8, 16, 24, 32]));
+                set("src_as", *rng.pick(&[0u32, 64512, 65535, 23456]));
+                set("dst_as", *rng.pick(&[0u32, 64512, 65535, 23456]));
+            }
+            set("d_pkts", 1 + rng.below(100) as u32);
+            set("d_octets", 40 + rng.below(150000) as u32);
+            let first = rng.below(1_000_000) as u32;
+            set("first", first);
+            set("last", first + rng.below(60000) as u32);
+            if rng.chance(1, 2) {
+                set("pad1", 0);
+                set("pad2", 0);
+            }
+        }
         records.push(r);
     }
     FixedPkt { version, header, records }
